@@ -18,3 +18,11 @@ def rotate(lst, seed, n):
     rot = lst[k:] + lst[:k]
     step = len(rot) / float(n)
     return [rot[int(i * step)] for i in range(n)]
+
+
+def writer_loops(k, sink_size):
+    """Per-loop bounds for TextHunk::write_to instantiated with the harness Sink<sink_size>, hunk sides of at most k lines
+    (mangled-name templates: impl methods / nested fns).  A template that does not match any loop only costs time."""
+    fcm = "_RNvNvXs_NtNtNt{libpatch}5patch7unified6writerINtBa_4HunkRShENtB6_22UnifiedPatchHunkWriter8write_to18find_closest_match"
+    wt = "_RINvXs_NtNtNt{libpatch}5patch7unified6writerINtB9_4HunkRShENtB5_22UnifiedPatchHunkWriter8write_toINtNtNtB7_6parser7verif_h4SinkKj%x_EEBb_" % sink_size
+    return {fcm + ".0": 2 * k + 2, fcm + ".1": k + 2, wt + ".0": 2 * k + 2, wt + ".1": k + 2, wt + ".2": k + 2}
